@@ -103,6 +103,40 @@ class NTClass:
         return TupleObj(vals, cls=self.cls or self.name, fields=self.fields)
 
 
+class GenList(list):
+    """What a generator function / generator expression / map / filter / zip / enumerate / reversed evaluates to: the values are
+    computed eagerly (the interpreter is not lazy) but can be *consumed only once*, like the real iterator: a second pass is
+    empty, next() advances, truthiness is always true, len() and indexing are not available to the program."""
+    def __init__(self, *a):
+        super().__init__(*a)
+        self.pos = 0
+
+    def take(self):
+        out = list(self[self.pos:])
+        self.pos = len(self)
+        return out
+
+    def __repr__(self):
+        return f"<generator {list.__repr__(self)} at {self.pos}>"
+
+
+class _GenIter:
+    """Live iteration over a GenList: a `for` loop that breaks leaves the rest for later."""
+    def __init__(self, g: GenList):
+        self.g = g
+
+    def __iter__(self):
+        return self
+
+    def __next__(self):
+        g = self.g
+        if g.pos >= len(g):
+            raise StopIteration
+        v = list.__getitem__(g, g.pos)
+        g.pos += 1
+        return v
+
+
 class DictObj(_NativeModel, dict):
     def __init__(self, *a, cls=None, **attrs):
         dict.__init__(self, *a)
@@ -224,7 +258,8 @@ def _extra_external(interp, key: str):
     import collections as _c
     table = {"collections.Counter": _c.Counter, "collections.deque": _c.deque, "collections.OrderedDict": _c.OrderedDict,
              "collections.defaultdict": _c.defaultdict, "collections.ChainMap": _c.ChainMap, "contextlib.suppress": _suppress,
-             "dataclasses.replace": interp._dc_replace, "copy.copy": None, "typing.cast": lambda t, v: v}
+             "dataclasses.replace": interp._dc_replace, "copy.copy": interp._copy, "copy.deepcopy": interp._deepcopy,
+             "typing.cast": lambda t, v: v}
     return table.get(key)
 
 _BINOPS = {
@@ -341,8 +376,8 @@ class Interp:
                 return self.eval(node.body, env)
             self.exec_block(node.body, env)
         except _Return as r:
-            return env.vars["__yields__"] if is_gen else r.v
-        return env.vars["__yields__"] if is_gen else None
+            return GenList(env.vars["__yields__"]) if is_gen else r.v
+        return GenList(env.vars["__yields__"]) if is_gen else None
 
     def _bind(self, a: ast.arguments, args, kwargs, env: Env, relpath, cls):
         pos = [x.arg for x in a.posonlyargs + a.args]
@@ -373,10 +408,15 @@ class Interp:
         denv = Env(env.parent)
         denv.vars["__relpath__"] = relpath
         denv.vars["__cls__"] = cls
+        dcache = self.__dict__.setdefault("_default_cache", {})
         for n in pos + kwonly:
             if n not in bound:
                 if n in defaults:
-                    bound[n] = self.eval(defaults[n], denv)
+                    # a default is evaluated once, when the function object is created (shared by all calls)
+                    key = (id(a), id(env.parent), n)
+                    if key not in dcache:
+                        dcache[key] = (self.eval(defaults[n], denv), env.parent)      # keep the env alive: ids stay unique
+                    bound[n] = dcache[key][0]
                 else:
                     raise Raised(ExcVal("TypeError", (f"missing argument {n}",)))
         env.vars.update(bound)
@@ -400,6 +440,12 @@ class Interp:
                 return x
             args = [wrap(a) for a in args]
             kwargs = {k: wrap(v) for k, v in kwargs.items()}
+            if f is bool and len(args) == 1 and isinstance(args[0], GenList):
+                return True
+            if f is not _b_next and f is not _b_iter and any(isinstance(a, GenList) for a in args):
+                if f is len or (f is _BUILTINS.get("len")):
+                    raise Raised(ExcVal("TypeError", ("object of type 'generator' has no len()",)), node)
+                args = [a.take() if isinstance(a, GenList) else a for a in args]     # a native consumer exhausts it
             if f in _ITER_BUILTINS or f is _b_sum:
                 args = [list(a.attrs["__iter__"]) if isinstance(a, Obj) and "__iter__" in a.attrs else
                         (list(a.attrs["__items__"]) if isinstance(a, Obj) and "__items__" in a.attrs else
@@ -416,6 +462,56 @@ class Interp:
         if m is not None:
             return self.call_value(m, args, kwargs, node)
         raise Raised(ExcVal("TypeError", (f"{f!r} is not callable",)), node)
+
+    def _copy(self, x):
+        """copy.copy: one level; model instances keep their class, share their attribute values."""
+        import copy as _copy
+        m = self._dunder(x, "__copy__")
+        if m is not None:
+            return self.call_value(m, [], {})
+        if isinstance(x, Obj):
+            if x.attrs.get("__node__"):
+                raise Unsupported("copy of an XML node")
+            return Obj(x.cls, **x.attrs)
+        if isinstance(x, _NativeModel):
+            raise Unsupported("copy of a native-subclass model value (decided by C20's copy protocol emulation)")
+        if isinstance(x, (Closure, BoundMethod, ClassRef, FuncInfo)):
+            return x
+        return _copy.copy(x)
+
+    def _deepcopy(self, x, memo=None):
+        memo = {} if memo is None else memo
+        if id(x) in memo:
+            return memo[id(x)]
+        m = self._dunder(x, "__deepcopy__")
+        if m is not None:
+            return self.call_value(m, [memo], {})
+        if isinstance(x, Obj):
+            if x.attrs.get("__node__"):
+                raise Unsupported("deepcopy of an XML node")
+            new = Obj(x.cls)
+            memo[id(x)] = new
+            for k, v in x.attrs.items():
+                new.attrs[k] = self._deepcopy(v, memo)
+            return new
+        if isinstance(x, _NativeModel):
+            raise Unsupported("deepcopy of a native-subclass model value (decided by C20's copy protocol emulation)")
+        if isinstance(x, list):
+            new = type(x)() if type(x) is not GenList else []
+            memo[id(x)] = new
+            new.extend(self._deepcopy(v, memo) for v in x)
+            return new
+        if isinstance(x, dict):
+            new = {}
+            memo[id(x)] = new
+            for k, v in x.items():
+                new[self._deepcopy(k, memo)] = self._deepcopy(v, memo)
+            return new
+        if isinstance(x, tuple):
+            return tuple(self._deepcopy(v, memo) for v in x)
+        if isinstance(x, (set, frozenset)):
+            return type(x)(self._deepcopy(v, memo) for v in x)
+        return x
 
     def _dc_replace(self, obj, **changes):
         """dataclasses.replace: a new instance built by the class's constructor from the current fields plus changes."""
@@ -651,7 +747,11 @@ class Interp:
                             if h.name:
                                 env.set(h.name, r.exc)
                             env.set("__current_exc__", r.exc)
-                            self.exec_block(h.body, env)
+                            try:
+                                self.exec_block(h.body, env)
+                            finally:
+                                if h.name:
+                                    env.vars.pop(h.name, None)      # `except E as e` unbinds e when the handler ends
                             break
                     else:
                         raise
@@ -896,13 +996,15 @@ class Interp:
             if m is not None:
                 return self.call_value(m, [], {}, node) != 0
             return True
-        if isinstance(v, (ClassRef, Closure, BoundMethod, ExcVal)):
-            return True
+        if isinstance(v, (ClassRef, Closure, BoundMethod, ExcVal, GenList)):
+            return True            # a generator / iterator object is always true, exhausted or not
         if v is NotImplemented:
             return True
         return bool(v)
 
     def iterate(self, v, node=None):
+        if isinstance(v, GenList):
+            return _GenIter(v)
         if isinstance(v, (list, tuple, range, str, bytes, bytearray, set, frozenset)):
             return list(v)
         if isinstance(v, dict):
@@ -1363,6 +1465,8 @@ class Interp:
         if isinstance(base, Obj) and "__getitem__" in base.attrs:
             return base.attrs["__getitem__"](key)
         import collections as _c
+        if isinstance(base, GenList):
+            raise Raised(ExcVal("TypeError", ("'generator' object is not subscriptable",)), e)
         if isinstance(base, (list, tuple, dict, str, bytes, bytearray, range, memoryview, _c.deque)):
             try:
                 return base[key]
@@ -1530,7 +1634,7 @@ class Interp:
         return out
 
     def ev_GeneratorExp(self, e, env):
-        return self.ev_ListComp(e, env)
+        return GenList(self.ev_ListComp(e, env))
 
     def ev_SetComp(self, e, env):
         return set(self.ev_ListComp(e, env))
@@ -1751,7 +1855,33 @@ def _b_sum(it, start=0):
 _NO_DEFAULT = object()
 
 
+def _b_iter(x):
+    if isinstance(x, GenList):
+        return x
+    if isinstance(x, (list, tuple, str, bytes, bytearray, range, set, frozenset)):
+        return GenList(x)
+    if isinstance(x, dict):
+        return GenList(x.keys())
+    return x
+
+
 def _b_next(it, default=_NO_DEFAULT):
+    if isinstance(it, GenList):
+        if it.pos < len(it):
+            v = list.__getitem__(it, it.pos)
+            it.pos += 1
+            return v
+        if default is _NO_DEFAULT:
+            raise StopIteration()
+        return default
+    if isinstance(it, (list, tuple)):
+        raise TypeError(f"'{type(it).__name__}' object is not an iterator")
+    if default is _NO_DEFAULT:
+        return next(it)
+    return next(it, default)
+
+
+def _b_next_old(it, default=_NO_DEFAULT):
     """next() on the interpreter's eager sequences (generator expressions are materialised as lists): the first
     element, or StopIteration / the default when empty.  Only the first call on a given sequence is meaningful."""
     if isinstance(it, (list, tuple)):
@@ -1771,10 +1901,10 @@ _BUILTINS = {
     "namedtuple": lambda name, fields, **k: NTClass(name, fields),
     "len": len, "min": min, "max": max, "all": all, "any": any, "range": range, "int": int, "float": float,
     "bool": bool, "str": str, "list": list, "tuple": tuple, "dict": dict, "set": set, "frozenset": frozenset,
-    "sum": _b_sum, "sorted": sorted, "reversed": lambda x: list(reversed(x)), "enumerate": lambda x, start=0: list(enumerate(x, start)),
-    "zip": lambda *a, strict=False: list(zip(*a, strict=strict)), "abs": abs, "repr": repr, "bytes": bytes, "print": lambda *a, **k: None,
+    "sum": _b_sum, "sorted": sorted, "reversed": lambda x: GenList(reversed(x)), "enumerate": lambda x, start=0: GenList(enumerate(x, start)),
+    "zip": lambda *a, strict=False: GenList(zip(*a, strict=strict)), "abs": abs, "repr": repr, "bytes": bytes, "print": lambda *a, **k: None,
     "divmod": divmod, "round": round, "callable": callable, "NotImplemented": NotImplemented,
-    "next": _b_next, "iter": lambda x: x, "map": lambda f, *a: list(map(f, *a)), "filter": lambda f, a: list(filter(f, a)),
+    "next": _b_next, "iter": _b_iter, "map": lambda f, *a: GenList(map(f, *a)), "filter": lambda f, a: GenList(filter(f, a)),
     "ord": ord, "chr": chr, "hex": hex, "bin": bin, "pow": pow, "id": id, "hash": hash, "format": format, "ascii": ascii,
     "memoryview": memoryview, "bytearray": bytearray, "slice": slice, "object": object,
     "True": True, "False": False, "None": None,
